@@ -636,3 +636,92 @@ def r6(prog):
                          "msg": "any tine may pull the next input for the whole ALT-list, and the tine that does yields first: after the first input the alternatives come out rotated (`[(1,2) (3,4)]` gives [3, 4, 4, 3]) instead of left to right for every input",
                          "detail": None})
     return inst, findings
+
+
+# ---------------------------------------------------------------------------
+# R7: "no stack" is reported only when upstream reported it
+
+def r7(prog):
+    """After a SUCCESSFUL upstream pull an op must yield or pull again: it may return `no stack` only along the edge where the
+    pull itself returned none.  (A consumer treats the first `no stack` as end of input, so anything else drops the remaining
+    inputs and leaves a half-drained upstream behind for the next feed.)"""
+    from cfg import CFG
+    from inline import strip_boolconv
+    inst, findings = [], []
+    for f in next_overrides(prog):
+        cls = f["cls"]
+        if any((o in ORIGINS) for o in [cls] + prog.bases(cls)):
+            continue
+        g = CFG(f)
+        pulls = [n for n in g.nodes if node_has_pull(prog, cls, n)]
+        if not pulls:
+            continue
+        key = "R7:" + f["fid"].split("(")[0]
+        modelled = 0
+        bad = None
+        for p in pulls:
+            handle = None
+            a = p.ast
+            if a.get("k") == "decl" and len(a["vars"]) == 1:
+                handle = ("var", a["vars"][0]["id"])
+            elif a.get("k") == "asg":
+                ch = field_chain(a["lhs"])
+                handle = ("chain", ch) if ch else None
+            elif a.get("k") == "call" and a.get("op") == "=" and len(a.get("a", [])) == 2:
+                ch = field_chain(a["a"][0])
+                handle = ("chain", ch) if ch else None
+
+            def tests_handle(e):
+                e, neg = strip_boolconv(e)
+                u = unwrap(e)
+                if not isinstance(u, dict):
+                    return None
+                if handle and handle[0] == "var":
+                    if u.get("k") == "ref" and u.get("id") == handle[1]:
+                        return neg
+                    if u.get("k") == "mem" and u["n"] == "first" and isinstance(unwrap(u["b"]), dict) and unwrap(u["b"]).get("id") == handle[1]:
+                        return neg
+                if handle and handle[0] == "chain" and field_chain(u) == handle[1]:
+                    return neg
+                if handle is None and p.kind == "cond" and any(is_pull(prog, cls, c) for c in walk_nolambda(u)):
+                    return neg
+                return None
+            # the test is the pull node itself (pull inside a condition) or the first condition on the handle after it
+            success = []
+            if p.kind == "cond":
+                neg = tests_handle(p.ast)
+                if neg is not None:
+                    success = [t for t, lab in p.succs if lab is (not neg)]
+            else:
+                seen = {p.id}
+                st = [p.id]
+                while st:
+                    nid = st.pop()
+                    for t, lab in g.nodes[nid].succs:
+                        n2 = g.nodes[t]
+                        if t in seen or node_has_pull(prog, cls, n2):
+                            continue
+                        seen.add(t)
+                        if n2.kind == "cond" and isinstance(n2.ast, dict):
+                            neg = tests_handle(n2.ast)
+                            if neg is not None:
+                                success += [t2 for t2, lab2 in n2.succs if lab2 is (not neg)]
+                                continue
+                        st.append(t)
+            if not success:
+                continue
+            modelled += 1
+            for s in success:
+                reach = g.reachable(start=s, avoid=lambda n: node_has_pull(prog, cls, n))
+                if node_has_pull(prog, cls, g.nodes[s]):
+                    continue
+                for i in reach:
+                    n = g.nodes[i]
+                    if n.kind == "ret" and is_null_stack_expr(n.ast):
+                        bad = (p.loc, n.loc)
+        inst.append((key, {"pulls": len(pulls), "pulls_with_modelled_test": modelled}))
+        if bad:
+            findings.append({"key": key, "where": bad[1],
+                             "msg": "%s returns `no stack` at %s after its upstream pull at %s SUCCEEDED: consumers take that as end of input, so the remaining input stacks are dropped (and a half-drained upstream is left for the next feed)" % (f["q"], bad[1], bad[0]),
+                             "detail": None})
+    return inst, findings
